@@ -133,6 +133,13 @@ TNext ==
             [] E.ev = "restart" -> TRestart
             [] E.ev = "snap"    -> Skip
             [] E.ev = "snapfail" -> Skip      \* a snapshot apply that failed: nothing may change
+            [] E.ev = "snapsend" -> /\ handed' = IF E.i > handed THEN E.i ELSE handed
+                                    /\ UNCHANGED <<rlog, applied, effects, synced, pc, snap, replayTo, seen, bad, allowed, sampled>>
+            \* a remote snapshot was announced and applied: the position is the snapshot's (if it was
+            \* ahead; both calls answered without error), otherwise nothing may have changed
+            [] E.ev = "snapok"  -> /\ allowed' = IF E.c1 = 0 /\ E.c2 = 0 /\ E.i > synced THEN {E.i}
+                                                  ELSE IF E.i > synced THEN {synced, E.i} ELSE {synced}
+                                   /\ UNCHANGED <<svars, bad, sampled>>
             [] E.ev = "abort"   -> bad' = TRUE /\ UNCHANGED <<svars, allowed, sampled>>   \* environmental: rest not judged
             [] OTHER            -> Mismatch("no-such-action", E.ev)
 
